@@ -7,7 +7,7 @@
      <<"kh", kind, h20>>         kind \in tz1..tz4
      <<"key", curve, p>>         ed (32 bytes) sp p2 (33) bls (48)
      <<"sig", kind, p>>          ed sp p2 gen (64 bytes) bls (96)
-     <<"chain", p4>>
+     <<"chain", "net", p4>>
    Binary forms as in the Tezos data encodings:
      address   22 bytes  00 tag h20 (tag 00..03 = tz1..tz4) | 01 h20 00 (KT1) | 02 h20 00 (txr1) | 03 h20 00 (sr1)
      contract  address \o entrypoint name (nothing for no entrypoint or "default")
@@ -48,7 +48,7 @@ Atoms == {<<"addr", kd, p, ep>> : kd \in AddrKinds, p \in Payloads(20), ep \in E
          \cup {<<"kh", kd, p>> : kd \in ImplicitKinds, p \in Payloads(20)}
          \cup UNION {{<<"key", c, p>> : p \in Payloads(KeyLen(c))} : c \in Curves}
          \cup UNION {{<<"sig", s, p>> : p \in Payloads(SigLen(s))} : s \in SigKinds}
-         \cup {<<"chain", p>> : p \in Payloads(4)}
+         \cup {<<"chain", "net", p>> : p \in Payloads(4)}
 
 TypeOf(x) == CASE x[1] = "addr" -> "address" [] x[1] = "kh" -> "key_hash" [] x[1] = "key" -> "key"
                [] x[1] = "sig" -> "signature" [] x[1] = "chain" -> "chain_id"
@@ -81,7 +81,7 @@ ReadTag(ty, b) ==
     [] ty = "key_hash" -> IF b[1] \in 0..3 THEN <<"kh", ImpKind(b[1]), SubSeq(b, 2, 21)>> ELSE Rej("tag")
     [] ty = "key" -> IF b[1] \in 0..3 /\ Len(b) = 1 + KeyLen(KeyCurve(b[1])) THEN <<"key", KeyCurve(b[1]), SubSeq(b, 2, Len(b))>> ELSE Rej("tag")
     [] ty = "signature" -> <<"sig", IF Len(b) = 96 THEN "bls" ELSE "gen", b>>
-    [] ty = "chain_id" -> <<"chain", b>>
+    [] ty = "chain_id" -> <<"chain", "net", b>>
 
 VARIABLES atom, reader, pc, byts, rty, res
 vars == <<atom, reader, pc, byts, rty, res>>
